@@ -66,6 +66,12 @@ def run(ctx):
         # one or two epochs, each composing a slice of the taskpools
         cut = rnd.randint(1, n - 1) if (n >= 3 and rnd.random() < 0.4) else n
         groups = [list(range(0, cut))] + ([list(range(cut, n))] if cut < n else [])
+        # in a third of the compositions some members are bare empty taskpools ('e'): they terminate inside
+        # parsec_context_add_taskpool, i.e. synchronously inside the compound's own callback (at most 32 per run)
+        if rnd.random() < 0.35:
+            for g in groups:
+                for _ in range(rnd.randint(1, 2)):
+                    g.insert(rnd.randint(0, len(g)), 'e')
         script = ';'.join('%s:%s;start;wait' % (rnd.choice(['addc', 'addr']), ','.join(str(t) for t in g)) for g in groups)
 
         def cfgs(vi, r2):
